@@ -22,6 +22,7 @@ type Offence struct {
 	Then    string   `json:"then,omitempty"`    // fin | rst | resume | none
 	Witness int      `json:"witness,omitempty"` // connection that generates traffic
 	Cut     int      `json:"cut,omitempty"`     // bytes of the last frame that are sent before the connection dies
+	Poses   int      `json:"poses,omitempty"`   // stall: pose updates of the witness, one per frame, behind the relayed custom messages
 }
 
 func (r *runner) sendFramed(c *Client, payload []byte, frame string) {
@@ -176,6 +177,25 @@ func (r *runner) offence(st *Step) {
 				w.Send(&hagallpb.CustomMessage{Type: hagallpb.MsgType_MSG_TYPE_CUSTOM_MESSAGE, Timestamp: now(), Body: []byte(body)})
 			}
 		}
+		// ... and moves an entity of its own, one pose per frame
+		var poseEnt uint32
+		var sentPoses []float32
+		if o.Poses > 0 && len(sentBodies) > 0 {
+			ms, pid := r.m.conn(o.Witness).Session, r.m.conn(o.Witness).PID
+			for _, id := range sortedKeysE(ms.Entities) {
+				if ms.Entities[id].Owner == pid {
+					poseEnt = id
+					break
+				}
+			}
+			for i := 0; poseEnt != 0 && i < o.Poses; i++ {
+				p := posePB(float32(5000 + i))
+				sentPoses = append(sentPoses, p.Px)
+				w.Send(&hagallpb.EntityUpdatePose{Type: hagallpb.MsgType_MSG_TYPE_ENTITY_UPDATE_POSE, Timestamp: now(), EntityId: poseEnt, Pose: p})
+				sim.RunFor(r.w.cfg.FrameDuration + r.w.cfg.Net.MinLat + r.w.cfg.Net.Jitter + time.Millisecond)
+				ms.Entities[poseEnt].Pose = poseOf(p)
+			}
+		}
 		// the offender also has requests of its own outstanding
 		var myRIDs []uint32
 		for i := 0; i < o.Cut; i++ {
@@ -205,6 +225,26 @@ func (r *runner) offence(st *Step) {
 					r.v("C02", "relay-missing", "%s", d)
 					r.v("C08", "slow-reader-lost-messages", "%s", d)
 					r.v("C09", "request-unanswered", "%s", d)
+				}
+				if len(sentPoses) > 0 {
+					var gotPoses []float32
+					for _, m := range c.Since() {
+						if b, ok := m.Msg.(*hagallpb.EntityUpdatePoseBroadcast); ok && b.EntityId == poseEnt && b.GetPose().GetPx() >= 5000 {
+							gotPoses = append(gotPoses, b.GetPose().GetPx())
+						}
+					}
+					bad := len(gotPoses) == 0 || gotPoses[len(gotPoses)-1] != sentPoses[len(sentPoses)-1]
+					for i := 1; i < len(gotPoses); i++ {
+						if gotPoses[i] <= gotPoses[i-1] {
+							bad = true
+						}
+					}
+					if bad {
+						d := fmt.Sprintf("%s stopped reading while entity %d was moved through poses %v (one per frame, behind %d relayed custom messages) and then resumed: it was relayed %v (must be an order preserving selection ending with the last)", c.Label, poseEnt, sentPoses, len(sentBodies), gotPoses)
+						r.v("C11", "pose-last-not-relayed", "%s", d)
+						r.v("C02", "relay-missing", "%s", d)
+						r.v("C08", "slow-reader-lost-messages", "%s", d)
+					}
 				}
 				for _, rid := range myRIDs {
 					if answered[rid] != 1 {
